@@ -103,6 +103,37 @@ Theorem C03_schnorr_withdraw_signers_no_panic : forall validate arbiters signers
 Proof. intros v a s k H. exact (np_no_panic _ (schnorr_withdraw_signers_np v a s H) k). Qed.
 Print Assumptions C03_schnorr_withdraw_signers_no_panic.
 
+(* The whole Schnorr withdraw check: signer loop (arbiter keys that are not
+   curve points rejected), aggregate key, every program compared with the
+   redeem script. *)
+Theorem C03_schnorr_withdraw_no_panic : forall validate arbiters signers agg_ok redeem codes k,
+  Forall (fun s => 0 <= s) signers ->
+  schnorr_withdraw validate arbiters signers agg_ok redeem codes <> Panic k.
+Proof. intros v a s g r c k H. exact (np_no_panic _ (schnorr_withdraw_np v a s g r c H) k). Qed.
+Print Assumptions C03_schnorr_withdraw_no_panic.
+
+(* TransferCrossChainAsset payload V0: any addresses / amounts / uint64
+   output indexes (2^63 and above included) / outputs. *)
+Theorem C03_crosschain_v0_no_panic : forall is_payload addrs idxs amounts outs minfee total_in k,
+  Forall (fun i => 0 <= i) idxs ->
+  crosschain_v0 is_payload addrs idxs amounts outs minfee total_in <> Panic k.
+Proof. intros p a i m o f t k H. exact (np_no_panic _ (crosschain_v0_np p a i m o f t H) k). Qed.
+Print Assumptions C03_crosschain_v0_no_panic.
+
+(* ReturnSideChainDepositCoin: any return output and any looked-up deposit
+   transaction (of any type, with or without inputs) that was valid when it
+   was stored ([deposit_wf]: its first input spends an existing output, its V0
+   output indexes are within its outputs). *)
+Theorem C03_return_sidechain_deposit_no_panic :
+  forall out_ph out_value fee dup dep addr_ok side k,
+  (forall tx, dep = Some tx -> deposit_wf tx) ->
+  return_deposit_output out_ph out_value fee dup dep addr_ok side <> Panic k.
+Proof.
+  intros p v f d dep a s k H.
+  exact (np_no_panic _ (return_deposit_output_np p v f d dep a s H) k).
+Qed.
+Print Assumptions C03_return_sidechain_deposit_no_panic.
+
 (* Transaction level: CheckAttributeProgram (any programs), then - only when
    it accepted, i.e. under exactly the guard it establishes: at least one
    program, every code >= 23 bytes - RunPrograms, the ReturnDepositCoin
@@ -153,7 +184,7 @@ Example C03_nonvacuous :
   auxpow_check (fun _ _ => 0) 7 [] 0 7 0 [] 0 [] 1224 = Ok false /\
   run_programs (fun _ => true) (fun _ _ => true) (fun _ _ => true) [75] [(true, [81; 33] ++ key33, [])] = Ok false /\
   run_programs (fun _ => true) (fun _ _ => true) (fun _ _ => true) [18] [(true, [81], [])] = Ok false /\
-  schnorr_withdraw_signers false [0; 1; 2] [3] = Ok false /\
+  schnorr_withdraw_signers false [1; 1; 1] [3] = Ok false /\
   (* accept paths *)
   is_multisig ms_good = Ok true /\ get_code_type ms_good = Ok 1 /\
   is_standard ([33] ++ key33 ++ [172]) = Ok true /\ is_schnorr ([81; 33] ++ key33) = Ok true /\
@@ -162,5 +193,30 @@ Example C03_nonvacuous :
     [(true, [33] ++ key33 ++ [172], 64 :: repeat 1 64)] = Ok true /\
   coinbase_sanity false [O' 30; O' 35; O' 35] false false = Ok true /\
   coinbase_context 0 true [O' 30; O' 35; O' 35] 30 35 35 0 0 = Ok true /\
-  schnorr_withdraw_signers true [0; 1; 2] [2; 0] = Ok true.
+  schnorr_withdraw_signers true [1; 1; 1] [2; 0] = Ok true.
 Proof. vm_compute. repeat split. Qed.
+
+(* second group: the repaired witnesses (output index 2^63; a deposit
+   transaction without inputs; an arbiter key that is not a curve point) are
+   rejections, accept paths exist, [deposit_wf] is satisfiable, and without
+   it the lookup indexes do panic *)
+Definition dep_ok : deposit_tx := Build_deposit_tx [(1, Some [5; 9])] 0 true [0] [(7, 100, true)].
+
+Example C03_nonvacuous2 :
+  crosschain_v0 true [1] [9223372036854775808] [5] [(75, 100)] 1 200 = Ok false /\
+  crosschain_v0 true [1] [0] [5] [(75, 100)] 1 200 = Ok true /\
+  return_deposit_output 9 90 10 false (Some (Build_deposit_tx [] 0 true [] [])) true 7 = Ok (Some false) /\
+  return_deposit_output 9 90 10 false (Some dep_ok) true 7 = Ok None /\
+  return_deposit_output 9 90 10 false (Some (Build_deposit_tx [(2, Some [5; 9])] 0 true [0] [])) true 7 = Panic IndexOOR /\
+  schnorr_withdraw false [1; 0; 1] [1] true [] [] = Ok false /\
+  schnorr_withdraw true [1; 1; 1] [2; 0] true ([81; 33] ++ key33) [[81; 33] ++ key33] = Ok true /\
+  schnorr_withdraw true [1; 1; 1] [2; 0] true ([81; 33] ++ key33) [[33] ++ key33 ++ [172]] = Ok false.
+Proof. vm_compute. repeat split. Qed.
+
+Example C03_deposit_wf_satisfiable : deposit_wf dep_ok.
+Proof.
+  split.
+  - intros i0 refouts H0 Hs. vm_compute in H0. inversion H0; subst. cbn in Hs. inversion Hs; subst.
+    vm_compute. split; [discriminate|reflexivity].
+  - repeat constructor; vm_compute; try discriminate; reflexivity.
+Qed.
